@@ -309,7 +309,7 @@ impl DiskCache {
 //@ contract
         requires state.num_items as int == msum(state.inner@, false),
         ensures
-            /*@C13*/ match r {
+            /*@C13,C12*/ match r {
                 Some((k, i)) => state.inner@.contains_key(k) && i < state.inner@[k]@.len(),
                 None => state.num_items == 0,
             },
@@ -346,8 +346,8 @@ impl DiskCache {
 //@ contract
         requires cap_ok(self.capacity), inv(*old(state), self.capacity), expected_add <= self.capacity,
         ensures
-            /*@C13*/ inv(*final(state), self.capacity),
-            /*@C13*/ r is Ok ==> final(state).total_bytes + expected_add <= self.capacity,
+            /*@C13,C12*/ inv(*final(state), self.capacity),
+            /*@C13,C12*/ r is Ok ==> final(state).total_bytes + expected_add <= self.capacity,
             r is Ok,
             final(state).total_bytes <= old(state).total_bytes, final(state).num_items <= old(state).num_items,
 //@ loop 1
@@ -395,8 +395,8 @@ impl DiskCache {
             cache_item.len <= self.capacity,          // C13: "provided no single item is larger than the capacity"
             old(state).num_items < usize::MAX,        // address space: every tracked item occupies memory
         ensures
-            /*@C13*/ inv(*final(state), self.capacity),
-            /*@C13*/ r is Ok ==> final(state).total_bytes <= self.capacity,
+            /*@C13,C12*/ inv(*final(state), self.capacity),
+            /*@C13,C12*/ r is Ok ==> final(state).total_bytes <= self.capacity,
             r is Ok,
             final(state).inner@.contains_key(*key) && final(state).inner@[*key]@.len() > 0 && final(state).inner@[*key]@.last() == cache_item,
 //@ body-start
@@ -423,14 +423,14 @@ impl DiskCache {
                 items@.len() == v0@.len() - vx_it2.index@,
                 items_bytes(v0@) <= u64::MAX,
                 // every byte taken out of the list is accounted for in total_bytes_rm
-                /*@C13*/ items_bytes(items@) + total_bytes_rm == items_bytes(v0@),
+                /*@C13,C12*/ items_bytes(items@) + total_bytes_rm == items_bytes(v0@),
 //@ before `let item = items.swap_remove(item_idx);`
             proof { lemma_incr_bound(tr, v0@.len() as int, tr.len() - 1 - vx_it2.index@); }
             let ghost w0 = items@;
 //@ after `let item = items.swap_remove(item_idx);`
             proof {
                 // property-carrying: what `swap_remove` did to the list, in the terms the byte accounting is stated in
-                /*@C13*/ assert(items@ =~= swap_removed(w0, item_idx as int));
+                /*@C13,C12*/ assert(items@ =~= swap_removed(w0, item_idx as int));
                 lemma_bytes_swap_remove(w0, item_idx as int);
                 lemma_bytes_nonneg(items@);
             }
@@ -438,7 +438,7 @@ impl DiskCache {
         let ghost v1 = *items;
         proof {
             // property-carrying: ties the guarded map after the removals to the spec map the counters are compared with
-            /*@C13*/ assert(state.inner@ == m0.insert(*key, v1));
+            /*@C13,C12*/ assert(state.inner@ == m0.insert(*key, v1));
             lemma_msum_insert(m0, *key, v1, true); lemma_msum_insert(m0, *key, v1, false);
             lemma_bytes_nonneg(v1@);
         }
@@ -448,7 +448,7 @@ impl DiskCache {
         let ghost v3 = *item_set;
         proof {
             // property-carrying: the map after the registration is the spec map with the new item appended
-            /*@C13*/ assert(state.inner@ == m2.insert(*key, v3));
+            /*@C13,C12*/ assert(state.inner@ == m2.insert(*key, v3));
             lemma_msum_insert(m2, *key, v3, true); lemma_msum_insert(m2, *key, v3, false);
             let base = if m2.contains_key(*key) { m2[*key]@ } else { Seq::<CacheItem>::empty() };
             assert(v3@.drop_last() =~= base);
@@ -466,7 +466,7 @@ impl DiskCache {
 //@ contract
         requires cap_ok(self.capacity), inv(*old(state), self.capacity),
         ensures
-            /*@C13*/ inv(*final(state), self.capacity),
+            /*@C13,C12*/ inv(*final(state), self.capacity),
             final(state).total_bytes <= old(state).total_bytes,
 //@ body-start
         let ghost m0 = state.inner@;
@@ -496,7 +496,7 @@ impl DiskCache {
 //@ sig `fn num_items_locked(state: &CacheState) -> (r: Result<usize, ChunkCacheError>)`
 //@ contract
         requires acct_ok(*state),
-        ensures /*@C13*/ r matches Ok(n) && n as int == msum(state.inner@, false),
+        ensures /*@C13,C12*/ r matches Ok(n) && n as int == msum(state.inner@, false),
 //@ end
 //@ extract chunk_cache/src/disk.rs in `impl DiskCache` region total_bytes
 //@ block `pub fn total_bytes(&self) -> Result<u64, ChunkCacheError> {`
@@ -504,7 +504,7 @@ impl DiskCache {
 //@ sig `fn total_bytes_locked(state: &CacheState) -> (r: Result<u64, ChunkCacheError>)`
 //@ contract
         requires acct_ok(*state),
-        ensures /*@C13*/ r matches Ok(n) && n as int == msum(state.inner@, true),
+        ensures /*@C13,C12*/ r matches Ok(n) && n as int == msum(state.inner@, true),
 //@ end
 
 //@ extract chunk_cache/src/disk.rs in `impl DiskCache` region initialize_state
@@ -520,9 +520,9 @@ impl DiskCache {
             num_items < usize::MAX,
         ensures
             // counters and the pending list advance in lock step
-            /*@C13*/ r.2@ == items@.push(cache_item),
-            /*@C13*/ r.1 - num_items == r.2@.len() - items@.len(),
-            /*@C13*/ r.0 - total_bytes == items_bytes(r.2@) - items_bytes(items@),
+            /*@C13,C12*/ r.2@ == items@.push(cache_item),
+            /*@C13,C12*/ r.1 - num_items == r.2@.len() - items@.len(),
+            /*@C13,C12*/ r.0 - total_bytes == items_bytes(r.2@) - items_bytes(items@),
             r.0 <= 3 * capacity,
 //@ body-start
         proof { lemma_bytes_push(items@, cache_item); }
@@ -600,9 +600,9 @@ spec fn is_item_file(e: DirEntry, ci: CacheItem) -> bool {
     ensures
         // soundness: whatever gets tracked is an item file no longer than the capacity, counted with its real length
         // (this is what `init_count_step` needs: `cache_item.len <= capacity`)
-        /*@C13*/ r matches Ok(Some(ci)) ==> file_result is Ok && is_item_file(file_result->Ok_0, ci) && ci.len <= capacity,
+        /*@C13,C12*/ r matches Ok(Some(ci)) ==> file_result is Ok && is_item_file(file_result->Ok_0, ci) && ci.len <= capacity,
         // completeness: an item file that fits the capacity IS tracked — `Ok(None)` never swallows one
-        /*@C13*/ ({ let e = file_result->Ok_0; let ci = parse_name(e.name@).unwrap();
+        /*@C13,C12*/ ({ let e = file_result->Ok_0; let ci = parse_name(e.name@).unwrap();
             (file_result is Ok && parse_name(e.name@) is Some && is_item_file(e, ci) && ci.len <= capacity && ci.len <= DEFAULT_CHUNK_CACHE_CAPACITY)
                 ==> r == Ok::<Option<CacheItem>, ChunkCacheError>(Some(ci)) }),
 //@ end
@@ -645,15 +645,15 @@ impl DiskCache {
             num_items as int == msum(state@, false), total_bytes as int == msum(state@, true), total_bytes < max_num_bytes,
             num_items + key_readdir.left@ <= usize::MAX,           // a directory is finite
         ensures
-            /*@C13*/ r matches Ok(st) ==> inv(st, capacity),
+            /*@C13,C12*/ r matches Ok(st) ==> inv(st, capacity),
 //@ body-start
         let ghost st0 = state@;
         proof { broadcast use axiom_key_model; assert(items_bytes(items@) == 0); }
 //@ loop 1
             invariant
                 cap_ok(capacity), max_num_bytes == 2 * capacity, state@ == st0, !st0.contains_key(key),
-                /*@C13*/ num_items as int == msum(st0, false) + items@.len(),
-                /*@C13*/ total_bytes as int == msum(st0, true) + items_bytes(items@),
+                /*@C13,C12*/ num_items as int == msum(st0, false) + items@.len(),
+                /*@C13,C12*/ total_bytes as int == msum(st0, true) + items_bytes(items@),
                 total_bytes < max_num_bytes,
                 num_items + vx_it1.left@ <= usize::MAX,
 //@ before `items.push(VerificationCell::new_unverified(cache_item));`
@@ -663,12 +663,12 @@ impl DiskCache {
                 proof { broadcast use axiom_key_model; }
                 proof { lemma_msum_insert(st0, key, items, true); lemma_msum_insert(st0, key, items, false); }
 //@ before `return Ok(CacheState::new(state, num_items, total_bytes)); }`
-                proof { /*@C13*/ assert(state@ == st0.insert(k0, it0)); }   // property-carrying: the state now tracks exactly the pending list under this key
+                proof { /*@C13,C12*/ assert(state@ == st0.insert(k0, it0)); }   // property-carrying: the state now tracks exactly the pending list under this key
 //@ before `if !items.is_empty() {`
             let ghost k0 = key; let ghost it0 = items;
             proof { lemma_msum_insert(st0, key, items, true); lemma_msum_insert(st0, key, items, false); }
 //@ after `if !items.is_empty() { state.insert(key, items);`
-            proof { /*@C13*/ assert(state@ == st0.insert(k0, it0)); }
+            proof { /*@C13,C12*/ assert(state@ == st0.insert(k0, it0)); }
 //@ end
 }
 
